@@ -124,7 +124,7 @@ def free_scenarios(rng, count, pid, prefix):
                                            'seed': rng.randrange(1, 1 << 20), 'flush': True, 'gc': pid == 'C05'}})
         out.append({'id': '%s-%04d' % (prefix, i), 'family': 'free',
                     'conf': {'filemax_blk': rng.choice([2, 3, 4, 8]), 'splitcap': rng.choice([1, 2, 3]), 'bodymax_blk': 1,
-                             'buckets': 16, 'bucket': 15, 'height': 3, 'rotflush': 'free'},
+                             'buckets': 16, 'bucket': 15, 'height': 3, 'rotflush': 'free', 'micro': True},
                     'keys': {k: k for k in keys}, 'ops': ops})
     return out
 
@@ -202,8 +202,7 @@ def run(pid, tier, seed, work, log, replay=None):
     tb = V.build_harness(work)
     scen = gated + free
     traces, crashed = V.run_scenarios(tb, scen, work, timeout=1500)
-    if crashed:
-        raise V.Inconclusive('harness process died: %s' % crashed[0][2][-800:])
+    res['violations'] += V.crash_verdicts(crashed, pid)
     nval = 0
     nevents = 0
     nontrivial = set()
@@ -250,6 +249,20 @@ def run(pid, tier, seed, work, log, replay=None):
         for sid, n, chk in r['bad']:
             name = chk.replace('C04_', pid + '_') if pid == 'C05' else chk
             res['violations'].append({'sid': sid, 'n': n, 'check': name, 'kf': ''})
+        # level 2: the hook micro-events of the same runs against the write-path / flush-path protocol of Bucket.tla
+        lev = []
+        for s in free:
+            if s['id'] in traces:
+                lev += V.normalize_lock(traces[s['id']])
+        if len(lev) > len(free):
+            r2 = V.tlc_validate_conc(lev, os.path.join(work, 'tvl'), module='Trace_Lock')
+            if not r2['accepted']:
+                raise V.Inconclusive('protocol validation did not consume the whole trace: %s\n%s' % (r2.get('tlc_error'), r2['out'][-1500:]))
+            nevents += len(lev)
+            res['coverage_l2'] = len(lev)
+            for sid, n, chk in r2['bad']:
+                name = chk.replace('C04_', pid + '_') if pid == 'C05' else chk
+                res['violations'].append({'sid': sid, 'n': n, 'check': name, 'kf': ''})
     sample = scen[0]
     res['coverage'] = {
         'states': states, 'transitions': trans, 'traces_validated_against_impl': nval,
@@ -257,7 +270,7 @@ def run(pid, tier, seed, work, log, replay=None):
         'evaluations': len(scen), 'distinct_nontrivial': len(nontrivial),
         'rule': 'gated: one scenario per (store shape, GC hook point, client operation, keys) where the pass really parked at the point; '
                 'free-running: histories with >= 2 client goroutines',
-        'events_validated': nevents, 'read_errors_counted': nerr, 'mc_runs': mcruns, 'exhaustive': bool(mcruns),
+        'events_validated': nevents, 'micro_events_validated': res.get('coverage_l2', 0), 'read_errors_counted': nerr, 'mc_runs': mcruns, 'exhaustive': bool(mcruns),
         'drift': len(res['drift']), 'model_only_leads': len(res['lead']),
     }
     res['assumptions'] = ['free-running schedules are samples; the gated grammar enumerates hook point x operation x shape']
